@@ -229,6 +229,20 @@ Definition proxy_eval (t : table) (sg : key) (now : fitness) : fitness * bool * 
   | f => (f, false, t)
   end.
 
+(* evaluator_proxy::save : return eva_.save(out) && cache_.save(out);
+   evaluator_proxy::load : return eva_.load(in) && cache_.load(in);
+   [eva_toks] is what the wrapped evaluator writes, [eva_load] how it reads it
+   back (None = failure); search::close / search::init use the pair to carry
+   the cache of the training evaluator from one session to the next. *)
+Definition proxy_save (eva_toks : list tok) (t : table) : list tok := eva_toks ++ save t.
+Definition proxy_load (eva_load : list tok -> option (list tok)) (s : list tok) (t : table) : bool * table :=
+  match eva_load s with
+  | None => (false, t)
+  | Some r => load r t
+  end.
+(* evaluator_proxy::clear : cache_.clear(); *)
+Definition proxy_clear (t : table) : table := clear t.
+
 (* ------------------------------------------------------------ dump for the
    correspondence check: seal and the slots of the current seal with a
    non-empty key, in index order *)
